@@ -150,3 +150,31 @@ Example mm_witness :
   = [MAcc None; MAcc None; MAcc (Some 1); MAcc None; MAcc (Some 10); MAcc (Some 1); MRej; MRej; MRej; MAcc (Some 7);
      MAcc (Some 1); MAcc None; MAcc (Some 11)].
 Proof. vm_compute. reflexivity. Qed.
+
+(* ---------- value indices ---------- *)
+(* Remove(keyIter, valueIndex): MOMO_CHECK(valueIndex < keyIter->GetCount()) -- an index >= the number of values of the key
+   (valueIndex = count is the boundary; in particular index 0 on a key without values) is rejected and nothing changes;
+   MakeIterator(keyIter, valueIndex) legitimately allows valueIndex = count (MOMO_CHECK(valueIndex <= count)) and rejects
+   anything larger. *)
+Lemma mm_value_index_out_of_range_rejected s sk idx k vs :
+  kderef s (mhs s sk) = Some (Some (k, vs)) ->
+  ((length vs <= idx)%nat -> mstep s (MRemoveKI sk idx) = (s, MRej)) /\
+  ((length vs < idx)%nat -> forall slot, kp (mhs s sk) <> KUnk -> mstep s (MMakeIt sk idx slot) = (s, MRej)).
+Proof.
+  intros D. split.
+  - intros H. cbn [mstep]; cbv zeta. rewrite D. destruct (Nat.ltb_spec idx (length vs)); [lia|reflexivity].
+  - intros H slot NU. cbn [mstep]; cbv zeta. rewrite D.
+    destruct (Nat.leb_spec idx (length vs)); [lia|].
+    destruct (kp (mhs s sk)) eqn:P; try congruence; destruct idx; try lia; destruct (kcont s (mhs s sk) true); reflexivity.
+Qed.
+(* the boundary: with a current key iterator, index count-1 is removed (valueVersion + 1), index count is rejected *)
+Lemma mm_value_index_boundary s sk k vs :
+  kderef s (mhs s sk) = Some (Some (k, vs)) -> kcont s (mhs s sk) true = true -> vs <> [] ->
+  mstep s (MRemoveKI sk (length vs)) = (s, MRej) /\
+  snd (mstep s (MRemoveKI sk (length vs - 1))) = MAcc None /\
+  vver (fst (mstep s (MRemoveKI sk (length vs - 1)))) = S (vver s).
+Proof.
+  intros D C NE. assert (0 < length vs)%nat by (destruct vs; [congruence|simpl; lia]).
+  cbn [mstep]; cbv zeta. rewrite D, C, Nat.ltb_irrefl.
+  destruct (Nat.ltb_spec (length vs - 1) (length vs)); [|lia]. repeat split.
+Qed.
